@@ -1,10 +1,148 @@
-(* C04 -- wavelet matrix. Placeholder while the proofs are being developed: one real theorem. *)
-From Coq Require Import NArith List Bool.
-Require Import SDS.Model.Mach SDS.Model.WM.
+(* C04 -- the wavelet matrix reproduces the vector and answers rank/select-type queries exactly; its
+   core maps a position to the position of its item in the stable sort by reversed bits, and back.
+   Only property theorems here: statement, [exact lemma], Print Assumptions.
+
+   Reading guide.
+   * V : list N is the source vector (items below 2^64, i.e. any of u8/u16/u32/u64/usize).
+   * Spec/Seq.v holds the reference answers: rank_v / select_v / inverse_select_v / contains_v /
+     value_iter_v / select_iter_v / pred_v / succ_v over occurrence positions; [reordered V] = (position,
+     value) pairs stably sorted by the reversed 64-bit representation [revkey]; map_down_v / map_up_v /
+     map_down_with_v read positions off that list; width_v = minimal number of bits.
+   * The embedded structures enter through their interfaces: every level bitvector [b] answers get / rank /
+     select / select_zero exactly for its ideal bit column ([bv_queries_ok], Proofs/BVCommon.v; established
+     by the C01 theorems for vectors built with bv_from_bits + bv_enable_all), and the offset IntVector
+     returns what was stored in it ([first_ok]; the IntVector push/pack/get refinement of C05).
+     [wm_columns V] are the bit columns of the successive stable partitions; [first_offsets] is the
+     model of WaveletMatrix::start_offsets up to (not including) the IntVector.
+   * Arguments (index, rank, value) are arbitrary 64-bit numbers; both overflow modes [m] and both
+     bits::select paths [sp] are quantified.
+   * list_max V + 1 < 2^64: the offset table has max+1 entries; a table of 2^64 entries cannot be allocated. *)
+From Coq Require Import NArith List Bool Permutation Sorted.
+Require Import SDS.Model.Mach SDS.Model.Bits SDS.Model.IntVec SDS.Model.BitVec SDS.Model.WM.
+Require Import SDS.Spec.BitSeq SDS.Spec.Seq.
+Require Import SDS.Proofs.BVCommon SDS.Proofs.WMSeq SDS.Proofs.WMOffsets SDS.Proofs.WMProof.
 Import ListNotations.
 Open Scope N_scope.
 
-(* value_iter starts at rank 0 and reports its value *)
-Theorem C04_value_of : forall v, wm_value_of (wm_value_iter v) = v /\ vi_rank (wm_value_iter v) = 0.
-Proof. intros v. split; reflexivity. Qed.
-Print Assumptions C04_value_of.
+(* ---- the core mapping (WMCore): len, width, map_down, map_down_with, map_down_with_two_positions,
+   map_up_with, and the round trip: mapping up inverts mapping down *)
+Theorem C04_core_mapping : forall sp m V levels,
+  Forall (fun x => x < 2 ^ 64) V -> lenN V < 2 ^ 64 ->
+  Forall2 (bv_queries_ok sp m) levels (wm_columns V) ->
+  let core := mkcore levels in
+  wc_len core = Ok (lenS V) /\ wc_width core = width_v V /\
+  (forall i, i < 2 ^ 64 -> wc_map_down m core i = Ok (map_down_v V i)) /\
+  (forall i v, i < 2 ^ 64 -> wc_map_down_with m core i v = Ok (map_down_with_v V i (v mod 2 ^ width_v V))) /\
+  (forall i1 i2 v, i1 < 2 ^ 64 -> i2 < 2 ^ 64 ->
+     wc_map_down_with_two m core i1 i2 v =
+     Ok (map_down_with_v V i1 (v mod 2 ^ width_v V), map_down_with_v V i2 (v mod 2 ^ width_v V))) /\
+  (forall j v, j < 2 ^ 64 -> wc_map_up_with sp m core j v = Ok (map_up_v V j (v mod 2 ^ width_v V))) /\
+  (forall i x, nth_opt V i = Some x ->
+     exists j, j < lenS V /\ wc_map_down m core i = Ok (Some (j, x)) /\
+               wc_map_down_with m core i x = Ok j /\ wc_map_up_with sp m core j x = Ok (Some i)).
+Proof. exact core_mapping. Qed.
+Print Assumptions C04_core_mapping.
+
+(* the reference object of the core mapping really is the stable sort by reversed bits: a permutation of
+   the (position, value) pairs, ordered by reversed 64-bit key, equal keys by original position *)
+Theorem C04_reordered_is_stable_sort : forall V,
+  Permutation (reordered V) (index_from V 0) /\
+  StronglySorted (fun a b => revkey (snd a) < revkey (snd b) \/ (revkey (snd a) = revkey (snd b) /\ fst a < fst b))
+                 (reordered V).
+Proof. exact reordered_is_stable_sort. Qed.
+Print Assumptions C04_reordered_is_stable_sort.
+
+(* the position of item i in that order is: items with a smaller key + earlier occurrences of the same value *)
+Theorem C04_map_down_position : forall V i x,
+  Forall (fun x => x < 2 ^ 64) V -> lenN V < 2 ^ 64 ->
+  nth_opt V i = Some x -> map_down_v V i = Some (less_v V x + rank_v V i x, x).
+Proof. intros V i x HV Hn. exact (map_down_v_pos V HV Hn i x). Qed.
+Print Assumptions C04_map_down_position.
+
+(* ---- the matrix: length, minimal width, get, rank, select, inverse_select, contains, value_iter /
+   select_iter (all items), predecessor / successor (all items), iteration *)
+Theorem C04_wm_exact : forall sp m V levels first F,
+  Forall (fun x => x < 2 ^ 64) V -> lenN V < 2 ^ 64 -> list_max V + 1 < 2 ^ 64 ->
+  Forall2 (bv_queries_ok sp m) levels (wm_columns V) ->
+  first_offsets m V (lenN V) (list_max V) = Ok F -> first_ok first F ->
+  let wm := mkwm (lenN V) (mkcore levels) first in
+  wm_len wm = lenS V /\ wm_width wm = width_v V /\ wm_width wm = bit_len (list_max V) /\
+  (forall i, i < 2 ^ 64 -> wm_get m wm i = match get_v V i with Some x => Ok x | None => Panic PUnwrap end) /\
+  (forall i v, i < 2 ^ 64 -> wm_rank m wm i v = Ok (rank_v V i v)) /\
+  (forall r v, r < 2 ^ 64 -> wm_select sp m wm r v = Ok (select_v V r v)) /\
+  (forall i, i < 2 ^ 64 -> wm_inverse_select m wm i = Ok (inverse_select_v V i)) /\
+  (forall v, wm_contains wm v = Ok (contains_v V v)) /\
+  (forall v, vi_items sp m wm (wm_value_iter v) = Ok (value_iter_v V v) /\ wm_value_of (wm_value_iter v) = v) /\
+  (forall r v, r < 2 ^ 64 -> vi_items sp m wm (wm_select_iter r v) = Ok (select_iter_v V r v)) /\
+  (forall i v, i < 2 ^ 64 -> (let* it := wm_predecessor m wm i v in vi_items sp m wm it) = Ok (pred_v V i v)) /\
+  (forall i v, i < 2 ^ 64 -> (let* it := wm_successor m wm i v in vi_items sp m wm it) = Ok (succ_v V i v)) /\
+  wm_into_iter m wm = Ok V.
+Proof. exact wm_exact. Qed.
+Print Assumptions C04_wm_exact.
+
+(* values that do not occur -- absent inside the alphabet, or outside it -- have no occurrences *)
+Theorem C04_absent_values : forall V v,
+  ~ In v V ->
+  contains_v V v = false /\ (forall i, rank_v V i v = 0) /\ (forall r, select_v V r v = None) /\
+  value_iter_v V v = [] /\ (forall r, select_iter_v V r v = []) /\ (forall i, pred_v V i v = []) /\ (forall i, succ_v V i v = []).
+Proof. exact absent_values. Qed.
+Print Assumptions C04_absent_values.
+
+(* ---- the offset table computed by start_offsets (counts, sort by reversed bits, prefix sums, sort back):
+   entry v = number of items that sort before v if v occurs, and the length otherwise *)
+Theorem C04_start_offsets : forall m V,
+  Forall (fun x => x < 2 ^ 64) V -> list_max V + 1 < 2 ^ 64 ->
+  exists F, first_offsets m V (lenN V) (list_max V) = Ok F /\ lenN F = list_max V + 1 /\
+    forall v, v <= list_max V -> nthN F v = Some (if contains_v V v then less_v V v else lenN V).
+Proof. exact first_offsets_ok. Qed.
+Print Assumptions C04_start_offsets.
+
+(* ---- construction: whenever From<Vec<T>> returns, its result meets the hypotheses of C04_wm_exact and
+   C04_core_mapping, given the interface theorems of the embedded BitVector (C01) and IntVector (C05) *)
+Theorem C04_from_vec : forall sp m V wm,
+  Forall (fun x => x < 2 ^ 64) V -> lenN V < 2 ^ 64 -> list_max V + 1 < 2 ^ 64 ->
+  (forall col r b, lenB col = lenN V -> bv_from_bits col = Ok r -> bv_enable_all sp m r = Ok b -> bv_queries_ok sp m b col) ->
+  (forall F iv first, Forall (fun x => x <= lenN V) F -> lenN F = list_max V + 1 ->
+     iv_from 64 F = Ok iv -> iv_pack iv = Ok first -> first_ok first F) ->
+  wm_from sp m V = Ok wm ->
+  exists levels first F,
+    wm = mkwm (lenN V) (mkcore levels) first /\
+    Forall2 (bv_queries_ok sp m) levels (wm_columns V) /\
+    first_offsets m V (lenN V) (list_max V) = Ok F /\ first_ok first F.
+Proof. exact wm_from_establishes. Qed.
+Print Assumptions C04_from_vec.
+
+(* the same, including that construction returns: with the existence form of the two interfaces *)
+Theorem C04_from_vec_total : forall sp m V,
+  Forall (fun x => x < 2 ^ 64) V -> lenN V < 2 ^ 64 -> list_max V + 1 < 2 ^ 64 ->
+  (forall col, lenB col = lenN V ->
+     exists r b, bv_from_bits col = Ok r /\ bv_enable_all sp m r = Ok b /\ bv_queries_ok sp m b col) ->
+  (forall F, Forall (fun x => x <= lenN V) F -> lenN F = list_max V + 1 ->
+     exists iv first, iv_from 64 F = Ok iv /\ iv_pack iv = Ok first /\ first_ok first F) ->
+  exists levels first F,
+    wm_from sp m V = Ok (mkwm (lenN V) (mkcore levels) first) /\
+    Forall2 (bv_queries_ok sp m) levels (wm_columns V) /\
+    first_offsets m V (lenN V) (list_max V) = Ok F /\ first_ok first F.
+Proof. exact wm_from_total. Qed.
+Print Assumptions C04_from_vec_total.
+
+(* ---- non-vacuity: the vector of the crate's documentation, built by the model (every level gets its
+   rank and both select supports), answers as the statements say; its ideal columns and offsets *)
+Definition ex_V : list N := [1; 0; 3; 1; 1; 2; 4; 5; 1; 2; 1; 7; 0; 1].
+Definition on_ex {A} (f : wmatrix -> res A) : res A := let* w := wm_from Pdep Debug ex_V in f w.
+Example C04_example :
+  on_ex (fun w => Ok (wm_len w, wm_width w, lenN (wc_levels (wm_data w)))) = Ok (14, 3, 3) /\
+  wm_columns ex_V = [map (fun v => N.testbit v 2) ex_V;
+                     map (fun v => N.testbit v 1) [1; 0; 3; 1; 1; 2; 1; 2; 1; 0; 1; 4; 5; 7];
+                     map (fun v => N.testbit v 0) [1; 0; 1; 1; 1; 1; 0; 1; 4; 5; 3; 2; 2; 7]] /\
+  first_offsets Debug ex_V 14 7 = Ok [0; 5; 3; 12; 2; 11; 14; 13] /\
+  on_ex (fun w => wm_rank Debug w 10 2) = Ok (rank_v ex_V 10 2) /\ rank_v ex_V 10 2 = 2 /\
+  on_ex (fun w => wm_select Pdep Debug w 2 1) = Ok (Some 4) /\
+  on_ex (fun w => wm_select Pdep Debug w 1 7) = Ok None /\
+  on_ex (fun w => wm_select Pdep Debug w (2 ^ 64 - 1) 1) = Ok None /\
+  on_ex (fun w => wm_inverse_select Debug w 7) = Ok (Some (0, 5)) /\
+  on_ex (fun w => wc_map_down Debug (wm_data w) 7) = Ok (map_down_v ex_V 7) /\ map_down_v ex_V 7 = Some (11, 5) /\
+  on_ex (fun w => wc_map_up_with Pdep Debug (wm_data w) 11 5) = Ok (Some 7) /\
+  on_ex (fun w => let* it := wm_predecessor Debug w (2 ^ 64 - 1) 2 in vi_items Pdep Debug w it) = Ok [(1, 9)] /\
+  on_ex (fun w => wm_into_iter Debug w) = Ok ex_V.
+Proof. vm_compute. repeat split; reflexivity. Qed.
